@@ -613,6 +613,33 @@ def real_logs(db):
                                        'parent': r.entity._table_, 'parentCols': list(r.entity._pk_columns_)})
     return placed, linked
 
+def real_index_log(db):
+    """the indexes the entity model calls for (from entities / attributes, not from db.schema), in the order generate_mapping registers them"""
+    out = []
+    ents = sorted(db.entities.values(), key=lambda e: e._id_)
+    for entity in ents:
+        for a in entity._new_attrs_:
+            r = a.reverse
+            if a.is_collection and r.is_collection:
+                n1, n2 = entity.__name__, r.entity.__name__
+                if n1 > n2 or (entity is r.entity and a.name > r.name): continue
+                if r is a: cols = list(a.columns) + list(a.reverse_columns)
+                elif entity is r.entity: cols = list(a.columns) + list(r.columns)
+                else: cols = list(r.columns) + list(a.columns)
+                out.append({'table': a.table, 'entity': entity.__name__, 'cols': cols, 'isPk': True, 'unique': False})
+        if entity._root_ is entity:
+            auto = len(entity._pk_columns_) == 1 and bool(entity._pk_attrs_[0].auto)
+            out.append({'table': entity._table_, 'entity': entity.__name__, 'cols': list(entity._pk_columns_), 'isPk': 'auto' if auto else True, 'unique': False})
+        for ix in entity._indexes_:
+            if ix.is_pk: continue
+            cols = [c for a in ix.attrs for c in a.columns]
+            out.append({'table': entity._table_, 'entity': entity.__name__, 'cols': cols, 'isPk': False, 'unique': bool(ix.is_unique)})
+    for entity in ents:
+        for a in entity._new_attrs_:
+            if a.is_collection or a.reverse or not a.index or not a.columns: continue
+            out.append({'table': entity._table_, 'entity': entity.__name__, 'cols': list(a.columns), 'isPk': False, 'unique': bool(a.is_unique)})
+    return out
+
 def run_real_mapping(src, dialect, sqlite_real=False):
     """build the diagram, extract declarations, run the real generate_mapping. Returns dict(decls, linked, outcome, db)"""
     if sqlite_real:
@@ -630,6 +657,7 @@ def run_real_mapping(src, dialect, sqlite_real=False):
         res['outcome'] = {'ok': real_schema_json(db.schema)}
         res['attrs'] = real_attr_state(db)
         res['log_placed'], res['log_linked'] = real_logs(db)
+        res['log_indexed'] = real_index_log(db)
     except RecursionError as e:
         res['outcome'] = {'error': 'RecursionError'}
     except Exception as e:
@@ -1035,7 +1063,9 @@ def diagrams(ctx):
                     if d: ctx.divergence('column placement log differs from attr.columns / attr.nullable at ' + d, [dialect, src])
                     d = first_diff(m['linked'], res['log_linked'], 'linked')
                     if d: ctx.divergence('foreign-key log differs from the relationship attributes at ' + d, [dialect, src])
-                    ctx.count('log:placed', len(res['log_placed'])); ctx.count('log:linked', len(res['log_linked']))
+                    d = first_diff(m['indexed'], res['log_indexed'], 'indexed')
+                    if d: ctx.divergence('index log differs from the primary keys / declared indexes of the entity model at ' + d, [dialect, src])
+                    ctx.count('log:placed', len(res['log_placed'])); ctx.count('log:linked', len(res['log_linked'])); ctx.count('log:indexed', len(res['log_indexed']))
                     # ghost provenance tags: `explicit` only for names that really are user-given
                     explicit = explicit_names(res['decls'])
                     for t in m['ok']['tables']:
